@@ -129,6 +129,43 @@ def export_check(run, c):
                     run.violation("two symbols with overlapping lifetimes share a colour", {"kind": "colouring", "scope": name, "symbols": [x, y], "source": c.prog.text(), "options": c.opts})
 
 
+def certificate_term(c):
+    """Gallina term (order, called_from, colours, registers) of one real allocation for RegScopes.check_alloc"""
+    ra = (c.result.get("_verif") or {}).get("regalloc")
+    if not ra:
+        return None
+    order = ra["sorted_scopes"]
+    ids = {n: i for i, n in enumerate(order)}
+    recs = {sc["scope"]: sc for sc in ra["scopes"]}
+    mapping = ra["mapping"]
+    mapped = set()
+    cf, cols, given = [], [], []
+
+    def nl(xs):
+        return "[" + "; ".join(str(x) for x in xs) + "]"
+    for name in order:
+        i = ids[name]
+        cf.append(f"({i}, {nl(sorted(ids[k] for k in ra['called_from'].get(name, []) if k in ids))})")
+        sc = recs.get(name)
+        if sc is None:
+            cols.append(f"({i}, None)")
+            continue
+        cs, rs = [], []
+        for sym in sc["symbols"]:
+            v = sym["vreg"]
+            if v in mapped or not str(v).startswith("__register."):
+                continue
+            mapped.add(v)
+            got = mapping.get(v)
+            m = re.fullmatch(r"r(\d+)", got or "")
+            if not m:
+                return None
+            cs.append(sym["color"]); rs.append(int(m.group(1)))
+        cols.append(f"({i}, Some {nl(cs)})")
+        given.append(f"({i}, {nl(rs)})")
+    return f"({nl(range(len(order)))}, [{'; '.join(cf)}], [{'; '.join(cols)}], [{'; '.join(given)}])"
+
+
 # ---------------------------------------------------------------------------- liveness / interference
 def interference(c):
     """-> list of problems: two simultaneously live virtual registers in one physical register, or
@@ -364,9 +401,13 @@ def main(tier, seed):
                 if c.name.startswith("pressure/"):
                     run.violation("a register-pressure program is rejected with an error other than out-of-registers",
                                   {"kind": "error", "source": c.prog.text(), "options": c.opts, "error": c.error()[:300]})
+    certs, cert_meta = [], []
     for c in oks:
         run.count("evaluations")
         export_check(run, c)
+        t = certificate_term(c)
+        if t:
+            certs.append(t); cert_meta.append(c)
         for p in interference(c)[:3]:
             kinds["interference_problems"] += 1
             rec = dict(p)
@@ -393,12 +434,30 @@ def main(tier, seed):
         run.count("evaluations")
         kinds["text_programs"] = kinds.get("text_programs", 0) + 1
         export_check(run, c)
+        t = certificate_term(c)
+        if t:
+            certs.append(t); cert_meta.append(c)
         for p in interference(c)[:3]:
             kinds["interference_problems"] += 1
             rec = dict(p)
             rec.update({"kind": "interference", "program": name, "source": src if isinstance(src, str) else src.get(""), "options": c.opts,
                         "option_set": vn, "code": r["code"], "features": ["text_program"]})
             run.violation(f"virtual register {p['clobbers_live']} is live while its physical register {p['register']} is overwritten ({p['instruction']})", rec)
+    # every real allocation is run through the Coq model of the scope loop: an accepted certificate proves
+    # (C04_allocation_certificate_sound) that in this compilation no scope shares a register with a transitive caller
+    try:
+        badc = core.coq_mismatches("c04cert", "From PV Require Import Model.RegScopes.",
+                                   "fun c => match c with (o, cf, cols, g) => check_alloc o cf cols g end", certs, shard=150)
+    except core.CoqEvalError as e:
+        run.obligation_broken("allocation certificates (model evaluation)", str(e))
+        badc = []
+    kinds["allocation_certificates_accepted"] = len(certs) - len(badc)
+    for i in badc[:5]:
+        c = cert_meta[i]
+        ra = c.result["_verif"]["regalloc"]
+        run.violation("the allocation is not the one the model of the scope loop computes from the same order, call graph and colours (callers' registers not avoided, or order not callers-first)",
+                      {"kind": "certificate", "source": c.prog.text(), "options": c.opts, "option_set": c.vname, "sorted_scopes": ra["sorted_scopes"],
+                       "called_from": ra["called_from"], "mapping": ra["mapping"], "code": c.result["code"]})
     # behaviour of the register-pressure programs (a clobbered value changes an effect)
     try:
         pipeline.diff_cases(oks, name="c04d")
